@@ -155,8 +155,8 @@ func genC14(t *rapid.T, tier string) (*World, any) {
 	p.Initial = C14Run{Version: pick(t, []string{"4.0.0", "3.3.2", "4.0.0-rc1"}, "v0"), Year: pick(t, []string{"2022", "2024"}, "y0")}
 	p.Root = pick(t, []string{"crs", "crs", "crs", ".crs-build", "core.rule.set"}, "rootname")
 	p.CRLF = chance(t, 10, "crlf")
-	paths := []string{p.Root + "/crs-setup.conf.example", p.Root + "/rules/REQUEST-901-INITIALIZATION.conf", p.Root + "/rules/REQUEST-942-APPLICATION-ATTACK-SQLI.conf", p.Root + "/plugins/empty-after.conf", p.Root + "/.devcontainer/dev.conf"}
-	n := drawInt(t, 1, 5, "nfiles")
+	paths := []string{p.Root + "/crs-setup.conf.example", p.Root + "/rules/REQUEST-901-INITIALIZATION.conf", p.Root + "/rules/REQUEST-942-APPLICATION-ATTACK-SQLI.conf", p.Root + "/plugins/empty-after.conf", p.Root + "/.devcontainer/dev.conf", p.Root + "/plugins/empty-before.example"}
+	n := drawInt(t, 1, 6, "nfiles")
 	for i := 0; i < n; i++ {
 		f := C14File{Path: paths[i], Segs: drawConfFile(t, fmt.Sprintf("f%d", i))}
 		p.Files = append(p.Files, f)
